@@ -411,7 +411,73 @@ def run_sampler(case):
     return res
 
 
-KINDS = {"prefix": run_prefix, "sampler": run_sampler}
+def _arrays_deep(o, acc=None):
+    """Like _arrays, but descends into object-dtype arrays (an array OF arrays hands out its elements by reference)."""
+    acc = [] if acc is None else acc
+    if isinstance(o, np.ndarray):
+        if o.dtype == object:
+            for v in o.ravel():
+                _arrays_deep(v, acc)
+        else:
+            acc.append(o)
+    elif isinstance(o, dict):
+        for v in o.values():
+            _arrays_deep(v, acc)
+    elif isinstance(o, (list, tuple)):
+        for v in o:
+            _arrays_deep(v, acc)
+    return acc
+
+
+def run_ragged(case):
+    """Histories whose batches have DIFFERENT sizes (what a resume with another particle count leaves behind): every accessor either declines
+    (raising is outside this property) or hands out arrays - at any nesting depth, including inside object arrays - that share no memory with the
+    internal state; writing into everything handed out leaves the committed history unchanged."""
+    import copy
+    from tempest.state_manager import StateManager
+
+    res = Res()
+    sizes = case["sizes"]
+    sm = StateManager(1)
+    for t, n in enumerate(sizes):
+        sm.update_current({"u": np.linspace(0.1, 0.9, n).reshape(n, 1) + 0.001 * t, "x": np.linspace(-1, 1, n).reshape(n, 1) - t, "logl": -np.arange(1, n + 1, dtype=float) - t,
+                           "beta": min(1.0, 0.3 * t), "logz": -0.1 * t, "iter": t + 1})
+        sm.commit_current_to_history()
+    accessors = {
+        "get_history(u)": lambda: sm.get_history("u"), "get_history(logl)": lambda: sm.get_history("logl"), "get_history(u, flat)": lambda: sm.get_history("u", flat=True),
+        "get_history(logl, index=0)": lambda: sm.get_history("logl", index=0), "get_last_history(u)": lambda: sm.get_last_history("u"),
+        "compute_results": lambda: sm.compute_results(), "to_dict": lambda: sm.to_dict(), "compute_logw_and_logz": lambda: sm.compute_logw_and_logz(1.0),
+    }
+    for name, fn in accessors.items():
+        if case.get("only") and case["only"] != name:
+            continue
+        before = copy.deepcopy(sm._history)
+        cc = dict(case, only=name)
+        for rep in range(2):  # twice: a cached result is handed out the second time
+            try:
+                r = fn()
+            except (ValueError, TypeError):
+                res.bump("ragged_accessor_declines")
+                break
+            res.evals += 1
+            internal = _internal(sm)
+            handed = _arrays_deep(r)
+            if any(a.size and any(np.shares_memory(a, b) for b in internal) for a in handed):
+                res.violate(f"ragged:alias:{name}", f"history with batch sizes {sizes}: {name} handed out an array (possibly nested inside an object array) that shares memory with internal state", cc)
+                break
+            for a in handed:
+                if a.size and a.flags.writeable:
+                    a[...] = 12345.0 if a.dtype.kind == "f" else 0
+            now = sm._history
+            if any(len(now[k]) != len(before[k]) or any(not np.array_equal(np.asarray(x), np.asarray(y)) for x, y in zip(now[k], before[k])) for k in ("u", "x", "logl", "beta", "logz")):
+                res.violate(f"ragged:mutation-visible:{name}", f"history with batch sizes {sizes}: writing into what {name} returned changed the committed history", cc)
+                break
+        res.outcome(("ragged", tuple(sizes), name), nontrivial=len(set(sizes)) > 1)
+    res.states += 1
+    return res
+
+
+KINDS = {"ragged": run_ragged, "prefix": run_prefix, "sampler": run_sampler}
 
 
 def plan(ctx):
@@ -428,6 +494,7 @@ def plan(ctx):
     longs = [{"kind": "prefix", "prefix": ["upd_all", "commit"] * T + tail, "depth": 2 * T + len(tail), "exact": True} for T in ((31, 32, 63, 64, 65, 127, 128, 129, 255, 256, 257) + ((511, 512, 513, 1024) if th else ()))]
     ctx.bounds["long_histories"] = [len(c["prefix"]) for c in longs]
     ctx.explore("long-histories", longs)
+    ctx.explore("ragged-histories", [{"kind": "ragged", "sizes": sz} for sz in ([2, 3], [3, 1], [2, 2, 5], [4, 4], [1, 2, 3, 4], [8, 12, 12])])
     sc = [{"kind": "sampler", "base": ctx.seed, "depth": 1}]
     for f in S_OPS:
         sc.append({"kind": "sampler", "base": ctx.seed, "depth": 2, "first": f})
